@@ -44,7 +44,9 @@ def real_parse(text, limit=10.0):
                 stmt[source] = "syntax:" + (str(e.lineno) if e.lineno else "")
             raise
         except (MemoryError, RecursionError):
-            if isinstance(source, str) and not is_call:
+            if is_call:
+                call[source[7:-1]] = "syntax"      # reported like a syntax error by the argument validator
+            elif isinstance(source, str):
                 stmt[source] = "complex"
             raise
         if is_call:
